@@ -398,6 +398,67 @@ def measure_scenario(b, sid, seed, n_grains=50):
     return ev, m
 
 
+_SWEEP = {}
+
+
+def _sweep_worker(sizes):
+    b, bases = _SWEEP["b"], _SWEEP["bases"]
+    out = []
+    for n in sizes:
+        c = bases[n % len(bases)]
+        lib = b.libs[c["lib"] - 1]
+        exp = np.array([[[qf(x) for x in row] for row in snap] for snap in c["avg"]]) / lib["scale"]
+        try:
+            minerals = []
+            for m in c["mins"]:
+                k = m["n"]
+                nn = max(n, k)
+                idx = np.arange(nn) % k
+                copies = np.bincount(idx, minlength=k)
+                oris = [np.array([b.rots[r - 1] for r in snap])[idx] for snap in m["ori"]]
+                vols = [np.array([qf(x) for x in snap])[idx] / copies[idx] for snap in m["vol"]]
+                minerals.append(b.mineral(m["phase"], nn, oris, vols))
+            got = b.average(minerals, c["asm"], [qf(x) for x in c["phi"]], lib["obj"])
+            ok, rel = close(got, exp)
+            out.append((n, ok, rel, None))
+        except Exception as ex:  # noqa: BLE001
+            out.append((n, False, float("inf"), type(ex).__name__))
+    return out
+
+
+def size_sweep(b, cases, chk, nmax, procs=14):
+    """Every grain count 1..nmax: the aggregate in which grain i is a copy of grain i mod k of an exact case, the
+    volumes shared out among the copies, must have the case's average (Voigt.tla Lumping)."""
+    import multiprocessing as mp
+
+    bases = {}
+    for c in cases:
+        if c["tag"] == "aligned" or c["mins"][0]["n"] < 2:
+            continue
+        bases.setdefault((asm_name(c["asm"]), asm_name(c["order"]), c["lib"]), c)
+    bases = [bases[k] for k in sorted(bases)]
+    if len(bases) < 6:
+        raise MachineryError(f"size sweep: only {len(bases)} base cases")
+    _SWEEP.update(b=b, bases=bases)
+    sizes = list(range(1, nmax + 1))
+    chunks = [sizes[j::procs * 8] for j in range(procs * 8)]
+    with mp.get_context("fork").Pool(procs) as pool:
+        res = [r for part in pool.map(_sweep_worker, [ch for ch in chunks if ch]) for r in part]
+    bad = sorted(r for r in res if not r[1])
+    for n, ok, rel, exc in res:
+        chk.count(("sweep", n))
+        if ok:
+            chk.maximum("size_sweep_rel_dev", rel)
+    chk.cov["size_sweep"] = dict(sizes=f"every grain count 1..{nmax}", base_cases=len(bases), calls=len(res))
+    if bad:
+        n, _, rel, exc = bad[0]
+        c = bases[n % len(bases)]
+        chk.violation(dict(clause="size-sweep-" + ("raised" if exc else "weighted-sum-value")),
+                      f"voigt_averages on copies of an exact case's grains (volumes shared out) differs from the case's average at {len(bad)} grain count(s), first {[r[0] for r in bad[:8]]}"
+                      + (f" (raised {exc})" if exc else f" (relative deviation {rel:.3g})"),
+                      dict(kind="size-sweep", sizes=[r[0] for r in bad[:200]], base=c, how="grain i is a copy of case grain i mod k; volume = case volume / number of copies"))
+
+
 def measure_signature(ev, clause_key):
     name = "ol,en~en,ol" if clause_key == "phaseOrder" else ev["asm"]
     return dict(clause=MEASURE_CLAUSE[clause_key], assemblage=name, level="float-measure")
@@ -534,6 +595,9 @@ def main(tier):
         chk.control("stale-expected-value-flagged-by-history-replayer", len(probe.violations) >= 1, "expected value of call 3 replaced by the one from before the assignment")
     else:
         chk.skip("history negative control: no behaviour replays cleanly on this tree")
+
+    # ---- 5b. every grain count
+    size_sweep(b, cases, chk, 6000 if quick else 20000)
 
     # ---- 6. seeded float scenarios, judged by the spec
     nsc = 60 if quick else 600
